@@ -478,7 +478,14 @@ def check_C03(prop, tier, only):
     # single-step request sweep over collections (also part of C02): a request inside the documented limits must return a
     # pointer or throw something derived from std::bad_alloc - never null, never crash (found D17/D18)
     ej += [j for j in grids.jobs_sweep(tier) if "/coll_" in j["name"] or "/pool_" in j["name"]]
+    # try_ members of COMPOSITIONS (fallback / segregator over instrumented leaves, composable interface): during a try_ call no leaf's
+    # throwing allocate_* is entered, the upstream does not grow, nothing is thrown, terminate is not reached
+    for cfg in c:
+        j = J("h_compose", cfg, f"--part comp --mode try --depth {5 if tier == 'quick' else 6}", name=f"compose/try-path[{cfg}]")
+        j["only_tags"] = ["try-called-throwing-path", "try-terminated", "try-grew-upstream", "try-threw"]
+        ej.append(j)
     return run_explore_check(prop, tier, jobs, only, enum_jobs=ej, note=NOTE_BFS +
+                             "compositions: all sequences up to depth 5/6 through the composable interface of fallback/segregator compositions over instrumented leaves (try-path oracle); "
                              "low-level allocators: malloc / operator new / mmap / mprotect made to fail during every request shape (must throw the out_of_memory family "
                              "after the handler, never null); alphabet includes try_ variants, requests that exhaust fixed sources, an oversize request, and 'fail the next upstream call' "
                              "(deviation bound 1) at every reachable upstream call position; M-null/M-fail/M-try: throwing calls never return null, "
@@ -551,7 +558,16 @@ def check_C12(prop, tier, only):
         for a_, b_ in ((16, 8), (8, 16)):
             jobs.append(J("h_coll", cfg, f"--type array --buckets log2 --src constant --maxns {a_} --maxns2 {b_} --bs 192 --sizes 8,16 --L 2 --B 2 --arena 2048 --moves 2",
                           name=f"coll/array/log2/constant[{cfg}] maxns {a_} vs {b_} --moves 2", need=("moveassigned_while_nonempty", "swapped"), moves=True))
-    return run_explore_check(prop, tier, jobs, only, note=NOTE_BFS +
+    ej = []
+    for cfg in ("rwd", "dbg"):
+        j = J("h_deeptrack", cfg, "", name=f"deeptrack[{cfg}]")
+        j["only_tags"] = ["block-callback-at-moved-from-tracker", "block-callback-at-destroyed-tracker", "block-callback-at-wrong-tracker", "block-callback-at-unknown-tracker",
+                          "destroyed-tracker-storage-written", "tracker-state-not-transferred", "block-callback-missing", "moved-allocator-aborted", "moved-allocator-crashed",
+                          "moved-allocator-hung"]
+        ej.append(j)
+    return run_explore_check(prop, tier, jobs, only, enum_jobs=ej, note=NOTE_BFS +
+                             "deeply tracked allocators (h_deeptrack): all histories of grow / unwind+shrink / move construct / move assign / swap / destroy (storage poisoned) / create over three "
+                             "slots: every block-level tracker callback arrives at the current owner's tracker; "
                              "two object slots; alphabet adds construct / move-construct / move-assign (onto empty, non-empty and moved-from targets) / swap / "
                              "destroy (also of moved-from objects) at every reachable state, up to 2 moves per history; all memory-safety and upstream monitors "
                              "continue across the move with ownership transferred in the model; the storage of destroyed objects must stay untouched")
@@ -641,7 +657,14 @@ def check_C02(prop, tier, only):
     c = cfgs_for(tier, thorough=("rel", "rwd", "dbg", "dbg16"))
     jobs = (pool_suite(tier, c, extra="--tries 1", fams=("member", "traits")) + coll_suite(tier, c, fams=("member", "traits"))
             + stack_suite(tier, c, extra="--tries 1") + iter_suite(tier, c[:2]) + static_suite(tier, c))
-    return run_explore_check(prop, tier, jobs, only, enum_jobs=grids.jobs_sweep(tier), note=NOTE_BFS +
+    ej = grids.jobs_sweep(tier)
+    # adapters must honour the requested alignment too: aligned_allocator compositions, all four allocation members, min x requested alignment
+    for cfg in ("rwd", "dbg"):
+        j = J("h_alignad", cfg, "", name=f"alignad[{cfg}]")
+        j["only_tags"] = ["returned-pointer-underaligned"]
+        ej.append(j)
+    return run_explore_check(prop, tier, jobs, only, enum_jobs=ej, note=NOTE_BFS +
+                             "aligned_allocator compositions (h_alignad): every allocation member x minimum 1..64 x requested alignment 1..64 x counts x sizes x bump offsets over a leaf that never over-aligns; "
                              "M-align / M-inside / M-disjoint on every transition (the harness writes all count*size bytes of every returned range and re-reads every live "
                              "range after every operation); plus the exhaustive single-step request sweep over sizes, counts, alignments and three canonical positions")
 
